@@ -496,6 +496,12 @@ var c13Corpus = []string{
 
 func genTemplate(r *hv.Rng, feat map[string]int) string {
 	var sb strings.Builder
+	if r.Chance(0.08) {
+		// what the native template parser does with a leading U+FEFF (its scanner drops ONE, in
+		// every mode) is part of "exactly what the native template parser assigns"
+		sb.WriteString(r.Pick("\ufeff", "\ufeff\ufeff", "\ufeff "))
+		feat["tmpl:leading-bom"]++
+	}
 	n := 1 + r.Small(5)
 	for i := 0; i < n; i++ {
 		switch r.Intn(14) {
@@ -526,7 +532,7 @@ func genTemplate(r *hv.Rng, feat map[string]int) string {
 			feat["tmpl:literal"]++
 		}
 	}
-	if r.Chance(0.15) {
+	if r.Chance(0.15) && !strings.HasPrefix(sb.String(), "\ufeff") {
 		// exactly one interpolation: the unwrapping rule
 		feat["tmpl:single-interp"]++
 		return "${" + r.Pick("n", "name", "lst", "c", "null", "n + 1", "obj") + "}"
